@@ -245,6 +245,120 @@ func init() {
 		}
 		w.P("]")
 
+		// ---- u_connection.go: cloneClientHelloSpecForDial — which extension types get a fresh value per dial, and
+		// which of the spec's fields that fresh value copies (`Field: …ext.Field…` inside the composite literal)
+		cf, err := parse("u_connection.go")
+		if err != nil {
+			return err
+		}
+		type cloneCase struct {
+			typ    string
+			fields []string
+		}
+		var cloneCases []cloneCase
+		defaultShares := false
+		foundClone := false
+		for _, d := range cf.Decls {
+			fd, ok := d.(*ast.FuncDecl)
+			if !ok || fd.Name.Name != "cloneClientHelloSpecForDial" || fd.Recv != nil {
+				continue
+			}
+			foundClone = true
+			ast.Inspect(fd.Body, func(n ast.Node) bool {
+				ts, ok := n.(*ast.TypeSwitchStmt)
+				if !ok {
+					return true
+				}
+				varName := ""
+				if as, ok := ts.Assign.(*ast.AssignStmt); ok && len(as.Lhs) == 1 {
+					if id, ok := as.Lhs[0].(*ast.Ident); ok {
+						varName = id.Name
+					}
+				}
+				for _, st := range ts.Body.List {
+					cc := st.(*ast.CaseClause)
+					if cc.List == nil { // default: c.Extensions[i] = e
+						if len(cc.Body) == 1 {
+							if as, ok := cc.Body[0].(*ast.AssignStmt); ok && len(as.Rhs) == 1 {
+								if _, ok := as.Rhs[0].(*ast.Ident); ok {
+									defaultShares = true
+								}
+							}
+						}
+						continue
+					}
+					for _, te := range cc.List {
+						name := ""
+						if star, ok := te.(*ast.StarExpr); ok {
+							if se, ok := star.X.(*ast.SelectorExpr); ok {
+								name = se.Sel.Name
+							}
+						}
+						if name == "" {
+							continue
+						}
+						var fields []string
+						for _, b := range cc.Body {
+							ast.Inspect(b, func(m ast.Node) bool {
+								cl, ok := m.(*ast.CompositeLit)
+								if !ok {
+									return true
+								}
+								if se, ok := cl.Type.(*ast.SelectorExpr); !ok || se.Sel.Name != name {
+									return true
+								}
+								for _, el := range cl.Elts {
+									kv, ok := el.(*ast.KeyValueExpr)
+									if !ok {
+										continue
+									}
+									k, ok := kv.Key.(*ast.Ident)
+									if !ok {
+										continue
+									}
+									uses := false
+									ast.Inspect(kv.Value, func(v ast.Node) bool {
+										if se, ok := v.(*ast.SelectorExpr); ok {
+											if x, ok := se.X.(*ast.Ident); ok && x.Name == varName && se.Sel.Name == k.Name {
+												uses = true
+											}
+										}
+										return true
+									})
+									if uses {
+										fields = append(fields, k.Name)
+									}
+								}
+								return false
+							})
+						}
+						cloneCases = append(cloneCases, cloneCase{name, fields})
+					}
+				}
+				return false
+			})
+		}
+		if !foundClone {
+			// before the per-dial copy existed the dial worked on the spec's own values: nothing is copied, nothing can be lost
+			defaultShares = true
+		}
+		w.P("/-- u_connection.go `cloneClientHelloSpecForDial`: (uTLS extension type that gets a fresh value per dial, the spec fields the fresh value copies) -/")
+		w.P("def cloneCases : List (String × List String) := [")
+		for i, cc := range cloneCases {
+			sep := ","
+			if i == len(cloneCases)-1 {
+				sep = ""
+			}
+			qs := make([]string, len(cc.fields))
+			for j, f := range cc.fields {
+				qs[j] = strconv.Quote(f)
+			}
+			w.P("  (%q, [%s])%s", cc.typ, strings.Join(qs, ", "), sep)
+		}
+		w.P("]")
+		w.P("/-- every other extension value is shared with the spec (`default: c.Extensions[i] = e`) -/")
+		w.P("def cloneDefaultShares : Bool := %v", defaultShares)
+
 		// ---- internal/wire: parameter ids + PopulateFromUQUIC switch table
 		wp, err := c.Load("internal/wire")
 		if err != nil {
